@@ -60,6 +60,16 @@ Theorem C06_static_full_builder : forall nodes root t init lit fuel r,
 Proof. exact C06_static_full_builder_proof. Qed.
 Print Assumptions C06_static_full_builder.
 
+(* ... and for EVERY token sequence the parser model accepts (C05_parse_tree_of) *)
+Theorem C06_static_full_parsed : forall toks root nodes,
+  parse toks = Ok (root, nodes) -> nodes <> [] ->
+  exists t, tree_of nodes root = Some t /\
+    (balanced t = true -> forall init lit fuel r, build nodes init lit fuel root = Ok r ->
+       let p := prog_of_build init r in
+       exists d, typed p d /\ ends_at_one p d /\ exists e, pjump p (snd r) = Some e /\ d e = Some (0, 0)).
+Proof. exact C06_static_full_parsed_proof. Qed.
+Print Assumptions C06_static_full_parsed.
+
 (* every accepted program without a bare `;;` and outside C06-K1..K4 keeps the
    discipline (bounded: the trees the parser produces from these inputs) *)
 Theorem C06_balanced_covers_triples_bounded_3 : forall a b c, accepted_balanced [a; b; c].
